@@ -59,17 +59,21 @@ impl ContentResolver {
             root.named_files()
         );
 
-        // A root file loaded earlier is replaced as a whole: its FileDataIDs
-        // must not answer for the new one.
-        self.file_data_id_map.clear();
-
         // Build FileDataID map if supported
+        let mut loaded_ids = std::collections::HashSet::new();
         for block in &root.blocks {
             for entry in &block.records {
                 self.file_data_id_map
                     .insert(entry.file_data_id.get(), entry.content_key);
+                loaded_ids.insert(entry.file_data_id.get());
             }
         }
+
+        // A root file loaded earlier is replaced as a whole: its FileDataIDs
+        // must not answer for the new one. (Dropped after the insert, so that
+        // an id present in both files resolves at every moment of the reload.)
+        self.file_data_id_map
+            .retain(|file_data_id, _| loaded_ids.contains(file_data_id));
 
         *self.root_file.write() = Some(root);
         // Paths resolved through the previous root file are stale now.
@@ -88,21 +92,26 @@ impl ContentResolver {
         let encoding = EncodingFile::parse(data)
             .map_err(|e| StorageError::Resolver(format!("Failed to parse encoding file: {e}")))?;
 
-        // An encoding file loaded earlier is replaced as a whole: content keys
-        // cached from it must not answer for the new one.
-        self.content_cache.clear();
-
         // Build content key cache from pages
         let mut cached_entries = 0;
+        let mut loaded_keys = std::collections::HashSet::new();
         for page in &encoding.ckey_pages {
             for entry in &page.entries {
                 // Cache content key to encoding key mappings (use first encoding key)
                 if let Some(encoding_key) = entry.encoding_keys.first() {
                     self.content_cache.insert(entry.content_key, *encoding_key);
+                    loaded_keys.insert(entry.content_key);
                     cached_entries += 1;
                 }
             }
         }
+
+        // An encoding file loaded earlier is replaced as a whole: content keys
+        // cached from it must not answer for the new one. (Dropped after the
+        // insert, so that a key present in both files resolves at every moment
+        // of the reload.)
+        self.content_cache
+            .retain(|content_key, _| loaded_keys.contains(content_key));
 
         debug!(
             "Loaded encoding file with {} ckey pages and cached {} entries",
